@@ -43,6 +43,10 @@ func mkVal(kind string, n int) kval {
 		if n%3 == 0 {
 			ns = (n%9 + 1) * 111000000
 		}
+		if n%6 == 3 {
+			// digits below the millisecond, down to the nanosecond
+			ns += (n%5+1)*10000 + (n%7+1)*100 + n%10
+		}
 		t := time.Date(2000+n%50, time.Month(1+n%12), 1+n%28, n%24, n%60, (n*7)%60, ns, time.UTC)
 		return kval{kind, t.Format(time.RFC3339Nano), t}
 	case "XMLSchemaDuration":
